@@ -68,6 +68,9 @@ pub struct CustomUnits;
 
 impl Prop for CustomUnits {
     type Case = Case;
+    fn shrink_iters(&self) -> u32 {
+        300
+    }
     fn name(&self) -> &'static str {
         "custom-units"
     }
